@@ -2954,6 +2954,11 @@ func (d *Data) handleBlocks(ctx *datastore.VersionedCtx, w http.ResponseWriter, 
 		}
 		timedLog.Infof("HTTP GET blocks at size %s, offset %s (%s)", parts[4], parts[5], r.URL)
 	} else {
+		// Only a POST stores blocks: other verbs are not checked against committed versions.
+		if strings.ToLower(r.Method) != "post" {
+			server.BadRequest(w, r, "DVID does not accept the %s action on the 'blocks' endpoint", r.Method)
+			return
+		}
 		if err := d.ReceiveBlocks(ctx, r.Body, scale, downscale, compression); err != nil {
 			server.BadRequest(w, r, err)
 		}
